@@ -14,6 +14,7 @@ import VerifModel.Driver.Nc
 import VerifModel.Driver.Fig
 import VerifModel.Driver.Prob
 import VerifModel.Driver.Dispatch
+import VerifModel.Driver.DiagramViews
 /-
   verifdrv — line-protocol driver: one operation per input line, one canonical
   reply line.  `ERR bad-op` for anything a handler does not recognise.
@@ -21,7 +22,7 @@ import VerifModel.Driver.Dispatch
 open VerifModel
 
 def handlers : List (List String → Option String) :=
-  [Driver.Cmp.handle, Driver.Cont.handle, Driver.Det.handle, Driver.Data.handle, Driver.Clean.handle, Driver.Agg.handle, Driver.Scripts.handle, Driver.Axis.handle, Driver.Output.handle, Driver.Text.handle, Driver.Args.handle, Driver.Diagram.handle, Driver.Nc.handle, Driver.Fig.handle, Driver.Prob.handle, Driver.Dispatch.handle]
+  [Driver.Cmp.handle, Driver.Cont.handle, Driver.Det.handle, Driver.Data.handle, Driver.Clean.handle, Driver.Agg.handle, Driver.Scripts.handle, Driver.Axis.handle, Driver.Output.handle, Driver.Text.handle, Driver.Args.handle, Driver.Diagram.handle, Driver.Nc.handle, Driver.Fig.handle, Driver.Prob.handle, Driver.Dispatch.handle, Driver.DiagramViews.handle]
 
 def step (line : String) : String :=
   let args := (line.trimAscii.toString.splitOn " ").filter (· ≠ "")
